@@ -348,8 +348,49 @@ def gen_jwk(repo, build):
     if not uses:
         raise ExtractError("jwk_process_values: use chain not found")
 
+    # which JWK member ends up in which provider parameter (openssl/jwk-parse.c, preprocessed so that the
+    # OSSL_PKEY_PARAM_* macros are the strings the library sees)
+    psrc = cpp(repo, build, "libjwt/openssl/jwk-parse.c")
+    psrc = re.sub(r'"\s+"', "", psrc)          # adjacent string literals ("rsa-factor" "1")
+    pmaps = {}
+    for fn in ("openssl_process_rsa", "openssl_process_ec", "openssl_process_eddsa"):
+        fb = func_body(psrc, r"\b%s\s*\([^)]*\)\s*\{" % fn)
+        var_member = dict(re.findall(r"(\w+)\s*=\s*json_object_get\s*\(\s*jwk\s*,\s*\"([^\"]*)\"\s*\)", fb))
+        pairs = []
+        for par, var in re.findall(r"set_one_(?:bn|octet)\s*\(\s*build\s*,\s*\"([^\"]*)\"\s*,\s*(\w+)\s*\)", fb):
+            if var not in var_member:
+                raise ExtractError("%s: parameter %s is filled from %s, which is not a JWK member read in this function" % (fn, par, var))
+            pairs.append((var_member[var], par))
+        m_ = re.search(r"set_ec_pub_key\s*\(\s*build\s*,\s*(\w+)\s*,\s*(\w+)\s*,", fb)
+        if m_:
+            for pos, var in zip(("pub.x", "pub.y"), m_.groups()):
+                if var not in var_member:
+                    raise ExtractError("%s: set_ec_pub_key argument %s is not a JWK member" % (fn, var))
+                pairs.append((var_member[var], pos))
+        if len(pairs) < 2:
+            raise ExtractError("%s: member/parameter pairs not found" % fn)
+        pmaps[fn] = pairs
+    eb = func_body(psrc, r"\bset_ec_pub_key\s*\([^)]*\)\s*\{")
+    m_ = re.search(r"set_ec_pub_key\s*\(\s*OSSL_PARAM_BLD\s*\*\s*\w+\s*,\s*json_t\s*\*\s*(\w+)\s*,\s*json_t\s*\*\s*(\w+)", psrc)
+    m2_ = re.search(r"EC_POINT_set_affine_coordinates\s*\(\s*\w+\s*,\s*\w+\s*,\s*(\w+)\s*,\s*(\w+)\s*,", eb)
+    bn_of = dict((b, j) for b, j in re.findall(r"(\w+)\s*=\s*BN_bin2bn\s*\(\s*bin_(\w+)\s*,", eb))
+    str_of = dict((b, j) for b, j in re.findall(r"str_(\w+)\s*=\s*json_string_value\s*\(\s*(\w+)\s*\)", eb))
+    if not (m_ and m2_) or m2_.group(1) not in bn_of or m2_.group(2) not in bn_of:
+        raise ExtractError("set_ec_pub_key: coordinate flow not in the recognised shape")
+    # argument position -> affine coordinate position
+    flow = []
+    for coord, bnv in zip(("X", "Y"), m2_.groups()):
+        suffix = bn_of[bnv]                 # x / y of bin_x / bin_y
+        jarg = str_of.get(suffix)
+        if jarg not in m_.groups():
+            raise ExtractError("set_ec_pub_key: cannot trace coordinate %s to an argument" % coord)
+        flow.append((m_.groups().index(jarg), coord))
+
     def bl(s_):
         return "[%s]" % ", ".join(str(b) for b in s_.encode())
+
+    def pm(pairs):
+        return "[" + ", ".join('("%s", "%s")' % pr for pr in pairs) + "]"
     text = f"""/- GENERATED by tie/extract.py from include/jwt.h and libjwt/jwks.c -- do not edit. -/
 namespace Jwt.Generated
 
@@ -362,9 +403,18 @@ def ktyTable : List (List UInt8 × Nat) := [{", ".join("(%s, %d) /- %s -/" % (bl
 /-- `jwk_process_values`: use string ↦ `jwk_pub_key_use_t` ordinal -/
 def useTable : List (List UInt8 × Nat) := [{", ".join("(%s, %d) /- %s -/" % (bl(n), use[c], n) for n, c in uses)}]
 
+/-- openssl/jwk-parse.c: (JWK member, provider parameter it fills) per key type; `pub.x`/`pub.y` = first/second
+coordinate argument of `set_ec_pub_key` -/
+def rsaParamMap : List (String × String) := {pm(pmaps["openssl_process_rsa"])}
+def ecParamMap : List (String × String) := {pm(pmaps["openssl_process_ec"])}
+def okpParamMap : List (String × String) := {pm(pmaps["openssl_process_eddsa"])}
+
+/-- `set_ec_pub_key`: which argument (0 = first JSON value) reaches which affine coordinate -/
+def ecCoordFlow : List (Nat × String) := [{", ".join('(%d, "%s")' % f for f in flow)}]
+
 end Jwt.Generated
 """
-    return "JwkTables.lean", text, {"key_ops": chain, "kty": ktys, "use": uses}
+    return "JwkTables.lean", text, {"key_ops": chain, "kty": ktys, "use": uses, "param_maps": pmaps, "ec_coord_flow": flow}
 
 
 def gen_ops(repo, build):
